@@ -588,10 +588,21 @@ func r06_4(r *Report, p *Program) {
 			okK, whyK = false, sf("reader keys with %s, writer with %s", engine.CallKey(getKey.Common()), engine.CallKey(mkKey.Common()))
 		default:
 			ga, ma := getKey.Common().Args, mkKey.Common().Args
-			if len(ga) != 2 || len(ma) != 2 || ga[0] != get.Params[1] || ga[1] != get.Params[2] {
-				okK, whyK = false, "reader does not pass (apiGroup, kind) in order to the key constructor"
+			// the reader's group parameter (first after the receiver) sits at position gi of the constructor, its
+			// kind parameter at the other one; the writer must fill the same positions with group resp. kind
+			gi := -1
+			if len(ga) == 2 && len(ma) == 2 {
+				switch {
+				case ga[0] == get.Params[1] && ga[1] == get.Params[2]:
+					gi = 0
+				case ga[1] == get.Params[1] && ga[0] == get.Params[2]:
+					gi = 1
+				}
+			}
+			if gi < 0 {
+				okK, whyK = false, "reader does not pass its (apiGroup, kind) parameters to the key constructor"
 			} else {
-				a0, a1 := E(ma[0]), E(ma[1])
+				a0, a1 := E(ma[gi]), E(ma[1-gi])
 				if !strings.Contains(a0, "ParseAPIVersion") || !strings.HasSuffix(a0, "#0") {
 					okK, whyK = false, "writer's first key component is not the API group: "+a0
 				}
